@@ -110,13 +110,18 @@ for _rs in (1, -1):
         _asphere(_rs, _m)
 
 
-def _per_surface(kind, Rsign, mirror):
-    tag = '%s%s.%s' % (kind, '' if kind == 'plane' else ('.Rpos' if Rsign > 0 else '.Rneg'), 'mirror' if mirror else 'refract')
+def _per_surface(kind, Rsign, mirror, backward=False):
+    tag = '%s%s.%s%s' % (kind, '' if kind == 'plane' else ('.Rpos' if Rsign > 0 else '.Rneg'), 'mirror' if mirror else 'refract',
+                         '.towards_minus_z' if backward else '')
 
     @contract('C05.surface.' + tag, FUNCS, ['C05'], bundle=True, max_paths=300, concolic=False)
     def ps(c):
         zv = c.real('gap', 1.0, 10.0, positive=True)
-        U = c.real('U', -0.3, 0.3)
+        U = c.real('U', -0.3, 0.3)                               # U = dy/dz of the arriving ray (per unit eps)
+        sg_ = -1 if backward else 1                              # light travelling towards -z (after a mirror) or +z
+        if backward:
+            # the ray starts at z = 0 and the vertex lies at z = -gap: same parametrisation mirrored in z
+            zv = -zv
         Y = c.real('H_at_vertex_plane', -2, 2) - U * zv          # any (Y, U); parametrised by the paraxial height at the vertex plane
         surf, n1, n2 = _surface_any(c, kind, Rsign, mirror, zv)
         PRm = c.mod('optiland.rays.paraxial_rays')
@@ -129,7 +134,7 @@ def _per_surface(kind, Rsign, mirror):
             errs = []
             for eps in (1e-2, 1e-3):
                 th = math.atan(eps * U)
-                rr = RRm.RealRays(0.0, eps * Y, 0.0, 0.0, math.sin(th), math.cos(th), 1.0, 0.55)
+                rr = RRm.RealRays(0.0, eps * Y, 0.0, 0.0, sg_ * math.sin(th), sg_ * math.cos(th), 1.0, 0.55)
                 surf.trace(rr)
                 errs.append((abs(float(rr.y[0]) / eps - yp), abs(float(rr.M[0] / rr.N[0]) / eps - up)))
             c.ensure('C05.surface.height_over_eps_converges_quadratically', errs[1][0] <= max(errs[0][0] / 30, 1e-9))
@@ -140,8 +145,8 @@ def _per_surface(kind, Rsign, mirror):
         yp, up = c.val(pr.y), c.val(pr.u)
         # meridional ray as an order-2 jet: y = eps Y, (L, M, N) = (0, sin, cos) of atan(eps U) = (0, eps U, 1 - eps^2 U^2/2)
         yj = J.Jet([0, Y, 0])
-        Mj = J.Jet([0, U, 0])
-        Nj = J.Jet([1, 0, -U * U / 2])
+        Mj = J.Jet([0, sg_ * U, 0])
+        Nj = J.Jet([sg_, 0, -sg_ * U * U / 2])
         rr = RRm.RealRays(c.arr(0.0), c.arr(yj), c.arr(0.0), c.arr(0.0), c.arr(Mj), c.arr(Nj), c.arr(1.0), c.arr(0.55))
         surf.trace(rr)
         yh = J.Jet.lift(c.val(rr.y))
@@ -160,6 +165,7 @@ def _per_surface(kind, Rsign, mirror):
 for _kind, _rs in (('plane', 1), ('conic', 1), ('conic', -1)):
     for _m in (False, True):
         _per_surface(_kind, _rs, _m)
+        _per_surface(_kind, _rs, _m, backward=True)       # the return path of a catadioptric system
 
 
 @contract('C05.launch.aims_at_current_pupil', ['optiland/rays/ray_generator.py:RayGenerator.generate_rays'], ['C05', 'C03'], bundle=True, max_paths=64)
